@@ -381,7 +381,7 @@ func addParents(contentMap map[string]*Content, path string, mtime time.Time) er
 
 func sortedParents(dst string) []string {
 	paths := []string{}
-	base := strings.Trim(dst, "/")
+	base := strings.Trim(NormalizeAbsoluteFilePath(dst), "/")
 	for {
 		base = filepath.Dir(base)
 		if base == "." {
